@@ -86,6 +86,17 @@ def _applied_by_double_not(roles):
     return cands
 
 
+def _transformed_before(e):
+    """The receiver of an emptiness test is not the payload as it is but the result of a text / sequence transformation."""
+    x = strip_refs(e)
+    for _ in range(8):
+        if x[0] == "call" and x[1] and re.search(r"Deref>::deref$|::as_str$|::as_ref$|::as_slice$|::borrow$|AsRef<.*>>::as_ref$", x[1]["path"]) and x[2]:
+            x = strip_refs(x[2][0])
+        else:
+            break
+    return x[0] == "call" and x[1] is not None and re.search(r"::(trim\w*|strip_\w+|to_\w*case|replace\w*|split\w*|filter|collect|trim_matches|trim_start_matches|trim_end_matches)$", x[1]["path"]) is not None
+
+
 def truthy_family(roles):
     """(table function body, keys of the pure forwarders of the family).  The family is what the function `!!` applies
     to its operand, what that purely forwards to (a public wrapper of the function that holds the table), and every
@@ -397,6 +408,8 @@ def table(ctx, facts, roles, truthy, cfg):
                     return ("empty", True)
         if key[0] == "cmp" and key[1] == "Lt" and key[2] == "c:0" and "::len(" in key[3]:
             return ("empty", False)                      # 0 < len
+        if key[0] == "pure" and "is_empty(" in key[1] and re.search(r"::(trim\w*|strip_\w+|to_\w*case|replace|split\w*|filter|chars|trim_matches)\(", key[1]):
+            return None
         if key[0] == "pure" and "is_empty(" in key[1] and ("'String'" in key[1] or "'Array'" in key[1]):
             return ("empty", True)
         if key[0] == "pure" and re.search(r"::(eq)\(", key[1]) and "c:''" in key[1] and "'String'" in key[1]:
@@ -432,6 +445,10 @@ def table(ctx, facts, roles, truthy, cfg):
                 # read, and another test than the table's (subnormals are not zero; -0.0 is)
                 return ("other-test", show_expr(v)[:80])
             if pth.endswith("::is_empty") and v[2]:
+                # emptiness of the payload *itself*: a string that was trimmed / filtered / re-encoded first is another
+                # string (a white-space-only string is not empty), and its emptiness is another test
+                if _transformed_before(v[2][0]):
+                    return ("other-test", show_expr(v)[:80])
                 return ("pred", "empty", not neg)
             if re.search(r"PartialEq.*::(eq|ne)$", pth) and any(strip_refs(x)[0] == "const" and const_value(strip_refs(x)[1]) == "" for x in v[2]):
                 return ("pred", "empty", (pth.endswith("::eq")) != neg)
